@@ -337,7 +337,7 @@ func afterCancel(cancelled bool, at time.Time) <-chan time.Time {
 func TestC19Live(t *testing.T) {
 	kit.Run(t, kit.Spec[c19Case]{
 		Prop: "C19",
-		Rule: "scan.NewLiveRequestGenerator (rescan intervals 3..40 ms, one case in two hundred 10.4..15 s with a single gap waited out) over (i) the real ipRequestGenerator (+ exclusion filter) for subnets /32../24 with any base, or (ii) a scripted delegate with drawn pass sizes (0..40, varying per pass) whose k-th pass (or every pass from the k-th on) may fail to start; rescan interval 3..40 ms; prompt or slow consumer (pass duration comparable to the interval); cancellation inside pass >=3 after a drawn number of items, or during the wait after it. Oracle: the stream splits into consecutive passes, each covering the (non-excluded) target exactly once; delegate-side timestamps: next pass is started >= interval after the previous one was drained (one-sided); passes keep coming until cancel; after cancel the stream ends (hard limit 30 s); a pass that fails to start causes neither a crash, nor the end of the stream, nor more delegate calls than elapsed/interval+2. non-trivial: >=2 complete passes and >=1 measured gap; distinct by case",
+		Rule: "scan.NewLiveRequestGenerator (rescan intervals 3..40 ms, about one case in 150 10.4..15 s with a single gap waited out) over (i) the real ipRequestGenerator (+ exclusion filter) for subnets /32../24 with any base, or (ii) a scripted delegate with drawn pass sizes (0..40, varying per pass) whose k-th pass (or every pass from the k-th on) may fail to start; rescan interval 3..40 ms; prompt or slow consumer (pass duration comparable to the interval); cancellation inside pass >=3 after a drawn number of items, or during the wait after it. Oracle: the stream splits into consecutive passes, each covering the (non-excluded) target exactly once; delegate-side timestamps: next pass is started >= interval after the previous one was drained (one-sided); passes keep coming until cancel; after cancel the stream ends (hard limit 30 s); a pass that fails to start causes neither a crash, nor the end of the stream, nor more delegate calls than elapsed/interval+2. non-trivial: >=2 complete passes and >=1 measured gap; distinct by case",
 		Gen: func(t *rapid.T) c19Case {
 			c := c19Case{Seed: rapid.Int64().Draw(t, "seed"), IntervalMs: rapid.SampledFrom([]int{3, 8, 20, 40}).Draw(t, "interval")}
 			if rapid.Bool().Draw(t, "real") {
@@ -371,7 +371,7 @@ func TestC19Live(t *testing.T) {
 			c.CancelPass = rapid.IntRange(3, 5).Draw(t, "cancelpass")
 			c.CancelWait = rapid.Bool().Draw(t, "cancelwait")
 			c.CancelAt = rapid.IntRange(0, 3).Draw(t, "cancelat")
-			if c.FailPass == 0 && rapid.IntRange(0, 199).Draw(t, "long-interval") == 0 {
+			if c.FailPass == 0 && kit.Uniform(t, "long-interval", 150) == 149 {
 				// a rescan interval of many seconds (what users configure); one gap is waited out, then the scan is cancelled
 				c.IntervalMs = rapid.SampledFrom([]int{10400, 11000, 12500, 15000}).Draw(t, "seconds")
 				// (cancelled after the first request of the second pass has been read)
